@@ -28,6 +28,7 @@ SHARED_ATTRS = {
     "nsmap": ("ns_map",),
 }
 
+WRAPPED_ORIGINALS = []
 _state = {"installed": False, "active": None, "lines": {}, "codes": []}
 
 
@@ -81,7 +82,45 @@ def yield_lines():
                 if any(re.search(re.escape(n) + r"\b", code) for n in names):
                     lines[i] = group
                     break
+        if mod.__name__.endswith((".context", ".models.elements")):
+            for ln in state_function_lines("\n".join(src)):
+                lines.setdefault(ln, "state")
         out[fn] = lines
+    return out
+
+
+MUTATORS = {"append", "extend", "insert", "sort", "update", "add", "setdefault", "pop", "popitem", "clear", "remove", "discard", "reverse"}
+
+
+def state_function_lines(source):
+    """Statement lines of every function (of the modules whose objects are shared between threads:
+    XmlContext, XmlMeta, XmlVar) that stores into an attribute/subscript or calls a mutating method:
+    lazily filled state that is not one of the named attributes (a new memo, a renamed cache) still
+    gets yield points. Constructors are excluded (the object is not shared yet)."""
+    import ast
+
+    out = set()
+    try:
+        tree = ast.parse(source)
+    except SyntaxError:
+        return out
+    for fn in ast.walk(tree):
+        if not isinstance(fn, (ast.FunctionDef, ast.AsyncFunctionDef)) or fn.name in ("__init__", "__post_init__", "__repr__", "__eq__"):
+            continue
+        touches = False
+        for node in ast.walk(fn):
+            if isinstance(node, (ast.Assign, ast.AugAssign, ast.AnnAssign)):
+                targets = node.targets if isinstance(node, ast.Assign) else [node.target]
+                if any(isinstance(t, (ast.Attribute, ast.Subscript)) for t in targets):
+                    touches = True
+            elif isinstance(node, ast.Call) and isinstance(node.func, ast.Attribute) and node.func.attr in MUTATORS:
+                touches = True
+            elif isinstance(node, ast.Delete):
+                touches = True
+        if touches:
+            for node in ast.walk(fn):
+                if isinstance(node, ast.stmt) and node is not fn:
+                    out.add(node.lineno)
     return out
 
 
@@ -95,11 +134,14 @@ def install():
         pass
     _state["lines"] = yield_lines()
     sys.monitoring.register_callback(TOOL, E.LINE, _on_line)
-    for mod in anchored_modules():
-        for co in code_objects(mod):
-            if co.co_filename in _state["lines"]:
-                sys.monitoring.set_local_events(TOOL, co, E.LINE)
-                _state["codes"].append(co)
+    codes = [co for mod in anchored_modules() for co in code_objects(mod)]
+    # functions replaced by harness wrappers (vf/props/c14.py hooks) are no longer reachable through
+    # their class: the wrappers register the original code objects here
+    codes += [f.__code__ for f in WRAPPED_ORIGINALS]
+    for co in codes:
+        if co.co_filename in _state["lines"] and co not in _state["codes"]:
+            sys.monitoring.set_local_events(TOOL, co, E.LINE)
+            _state["codes"].append(co)
 
 
 def _on_line(code, line):
